@@ -106,6 +106,22 @@ def outcomeKey (o : Outcome) : String :=
 def sortOutcomes (os : List Outcome) : List Outcome :=
   (os.toArray.qsort fun a b => outcomeKey a < outcomeKey b).toList
 
+/-- Replace every `@` of the values by a private-use char that occurs nowhere else: the values can then not be
+substituted again, everything else is unchanged. -/
+def neutralise (vs : List (Str × Str)) : List (Str × Str) :=
+  vs.map fun p => (p.1, p.2.map fun c => if c = '@' then Char.ofNat 0xE000 else c)
+
+/-- Why do the sequential and the simultaneous substitution differ on these templates?  `value-contains-at`: they
+agree once the `@`s of the values are neutralised; `join`: they still differ and the no-join condition is violated
+(with neutralised values); anything else would contradict the theorem `substitution`. -/
+def substCause (vs : List (Str × Str)) (ts : List Str) : String :=
+  let vs' := neutralise vs
+  if !namesNoAt vs then "name-contains-at"
+  else if ts.all (fun t => replaceVars t (sortByLen vs') == subst vs' t) then
+    (if !valuesNoAt vs then "value-contains-at" else "substitution-unexplained")
+  else if !(ts.all fun t => noJoin vs' t) then "join"
+  else "substitution-unexplained"
+
 /-- `{"kind":"sub","vars":[[n,v]..],"ts":[..]}`: sort + sequential replace vs simultaneous substitution. -/
 def handleSub (j : Json) : Except String Json := do
   let vs ← pairList j "vars"
@@ -118,12 +134,7 @@ def handleSub (j : Json) : Except String Json := do
   let spec (t : Str) : Str := if namesNoAt vs then subst vs t else replaceVars t sorted
   let s := Json.mkObj [("vars", jv sorted), ("outs", toJson (ts.map fun t => S (spec t)))]
   let differs := ts.any fun t => replaceVars t sorted != spec t
-  let sig : Option String :=
-    if !differs then none
-    else if !namesNoAt vs then some "name-contains-at"
-    else if !valuesNoAt vs then some "value-contains-at"
-    else if !(ts.all fun t => noJoin vs t) then some "join"
-    else some "substitution-unexplained"
+  let sig : Option String := if !differs then none else some (substCause vs ts)
   let tags : List String :=
     (if !(ts.all fun t => noJoin vs t) then ["hyp:join-violated"] else []) ++
     (if !valuesNoAt vs then ["hyp:value-at"] else []) ++
@@ -170,19 +181,20 @@ def handle (j : Json) : Except String Json := do
   let vsM := rule.variablesUnsorted cf captured q
   let templates := (match rule.target with | some t => [t] | none => []) ++ rule.headerFilters ++ rule.bodyFilters
   let sameCaps := captured.all (fun p => sCaptured.lookup p.1 == some p.2) && sCaptured.all (fun p => captured.lookup p.1 == some p.2)
-  let repeated := rule.layers.any fun l => !nodupStr (groupNames l.2)
+  -- a rejected value only in header triggers (the other layers accept their values)
+  let rejectedOnlyInHeaders := usable && !sMatch &&
+    (rule.layers.all fun l => match l.1 with
+      | .header _ => true
+      | _ => l.2.all fun
+        | .lit _ => true
+        | .grp n re => acc (layerIc cfg l.1) re (normValue cf cfg l.1 ((inst.lookup n).getD [])))
   let sig : Option String :=
     if matched != sMatch then
-      (if !rule.headers.isEmpty then some "header-unanchored" else some "match-bit")
+      (if matched && rejectedOnlyInHeaders then some "header-unanchored" else some "match-bit")
     else if !matched then none
     else if outs == [sOut] then none
-    else if !sameCaps then
-      (if repeated then some "repeated-marker"
-       else if !rule.headers.isEmpty then some "header-unanchored" else some "capture")
-    else if !namesNoAt vsM then some "name-contains-at"
-    else if !valuesNoAt vsM then some "value-contains-at"
-    else if !(templates.all fun t => noJoin vsM t) then some "join"
-    else some "substitution-unexplained"
+    else if !sameCaps then some "capture"
+    else some (substCause vsM templates)
   let tags : List String :=
     (if usable then ["inst:usable"] else if hasInst then ["inst:unusable"] else ["inst:none"]) ++
     (if matched then [s!"captured:{captured.length}"] else []) ++
